@@ -350,6 +350,26 @@ func c11Case(r *core.Run, idx int, rng *rand.Rand) {
 			if c2.D.Msg != nil && c2.D.Msg.Issuer != mv.EntityID {
 				viol(c2, "issuer_of_sso_error", fmt.Sprintf("Issuer %q, entityID %q", c2.D.Msg.Issuer, mv.EntityID))
 			}
+			if b == "post" && idx%3 == 0 && e.IDPConf != nil {
+				// the integrator changes the requirement on the configuration object it handed in, while the provider runs:
+				// whether or not a running provider follows that, what it publishes and what it does stay the same thing
+				old := e.IDPConf.WantAuthRequestsSigned
+				e.IDPConf.WantAuthRequestsSigned = map[bool]string{true: "false", false: "true"}[advTrue]
+				mvF := fetchMeta(e, eps["meta"].route("metadata"), reqHost, hdr)
+				a3 := validAuthn(rng, spd)
+				a3.Destination = ssoLoc
+				u3 := ssoSend{Path: eps["sso"].route("SSO"), Binding: []string{"redirect", "post"}[rng.Intn(2)], XML: a3.XML(rng), Host: reqHost}
+				u3.hdr = hdr
+				c3, _ := u3.do(e)
+				e.IDPConf.WantAuthRequestsSigned = old
+				if mvF.Err == "" && c3.Panic == "" {
+					advF := mvF.HasWant && (mvF.WantSigned == "true" || mvF.WantSigned == "1")
+					if advF != !c3.Accepted() {
+						viol(c3, "want_signed_advertisement_and_enforcement_differ_after_a_configuration_change", fmt.Sprintf("after the configuration object was changed from %q to %q at run time the metadata advertises WantAuthnRequestsSigned=%q while an unsigned request was accepted=%v", old, map[bool]string{true: "false", false: "true"}[advTrue], mvF.WantSigned, c3.Accepted()))
+					}
+					r.Count("want_signed_probes_after_a_configuration_change", 1)
+				}
+			}
 		}
 		// ... also while the key storage is failing: what the document advertised a moment ago is still refused
 		if advTrue {
